@@ -307,7 +307,7 @@ func checkEnabledDecides(c *Ctx, rule string) {
 // re-panics.  Overlay.Delete/Update can panic after some indexes were already changed
 // ("update & delete on same record"); a catchable panic would leave a transaction that
 // can still commit with its indexes disagreeing.
-func checkMutationAbortWrapper(c *Ctx, t *tranAnchors, rule string) {
+func checkMutationAbortWrapper(c *Ctx, t *tranAnchors, rule string, extra ...*types.Func) {
 	p := c.P
 	utAbort := p.DeclaredMethod("db19", "UpdateTran", "Abort")
 	if !c.need(rule, "db19.UpdateTran.Abort", utAbort) {
@@ -327,6 +327,11 @@ func checkMutationAbortWrapper(c *Ctx, t *tranAnchors, rule string) {
 					cal := Callee(info, call)
 					if sameFunc(cal, t.ovInsert) || sameFunc(cal, t.ovDelete) || sameFunc(cal, t.ovUpdate) {
 						muts = append(muts, call)
+					}
+					for _, x := range extra {
+						if x != nil && sameFunc(cal, x) {
+							muts = append(muts, call)
+						}
 					}
 				}
 				return true
